@@ -40,7 +40,7 @@ def vector_tt(rng):
         ranks = [1] + [int(rng.integers(2, 6)) for _ in range(d - 1)] + [1]
         kind = 'overparam'
         cores = gen.rand_cores(rng, rows, [1] * d, ranks, cplx)
-    sc = gen.rand_scale(rng)
+    sc = gen.rand_scale(rng, span=8 if rng.random() < 0.5 else 25)  # also magnitudes far below machine epsilon / far above 1/eps
     if sc != 1.0:
         gen.apply_scale(cores, rng, sc)
         kind += '_scaled'
